@@ -1209,6 +1209,19 @@ def r_query(w, op):
         sh = cands[d[1] % len(cands)]
         b = Bound("query", "IODataShell.permutation_libcint", call=sh.permutation_libcint, args=[sh])
         return b
+    elif fn_name == "boys_func":
+        m = 1 + P["orders"][0]
+        n, kb, ka = 1 + P["orders"][1], 1 + P["orders_one"][0], 1 + P["orders_two"][0]
+        scale = [1.0, 30.0, 400.0][d[2] % 3]
+
+        def mk_wd():
+            return np.array([rs.uniform(0, 1) * scale for _ in range(n * kb * ka)]).reshape(1, n, kb, ka)
+
+        wd = w.array("boys_wd", (1, n, kb, ka), d[1], reuse(), mk_wd)
+        od = int_array("boys_orders", [[[[i]]] for i in range(m)], 3)
+        fn = w.api.cls["PointChargeIntegral"].boys_func
+        return _finish_query(w, op, "PointChargeIntegral.boys_func", fn, [["orders", od, "orders"],
+                                                                          ["weighted_dist", wd, "coords"]], [])
     elif fn_name == "factorial2":
         args.append(["n", int_array("orders", [2 * x - 1 for x in P["orders"]], 1), "orders"])
     elif fn_name == "is_integral_screened":
